@@ -1050,3 +1050,83 @@ Proof.
   rewrite I0, <- I1, Hi.
   destruct (C0 Hs eq_refl) as [[E1 E2]|E1]; [left; now rewrite E1, E2|right; rewrite E1; eauto].
 Qed.
+
+(* ------------------------------------------------------------------ *)
+(* reportSyntaxError only decides what happens to a syntax error       *)
+
+Lemma finish_flag_irrelevant F s :
+  err s <> ESyntax -> finish_imports F true s = finish_imports F false s.
+Proof.
+  intros H. unfold finish_imports. destruct (no_err s && negb (eof s)); [reflexivity|].
+  destruct (err s); [reflexivity|now elim H|reflexivity].
+Qed.
+
+Lemma finish_true_err F s s' out e :
+  finish_imports F true s = (s', out, e) -> e <> ESyntax -> err s <> ESyntax.
+Proof.
+  unfold finish_imports. destruct (no_err s && negb (eof s)) eqn:Ec.
+  - apply andb_true_iff in Ec. destruct Ec as [Hn _]. intros _ _ He. unfold no_err in Hn. rewrite He in Hn. discriminate.
+  - cbn [negb]. destruct (err s) eqn:Ee; intros [= _ _ <-] H; try discriminate; congruence.
+Qed.
+
+(* without a syntax error the two modes return the same imports, bytes and error *)
+Theorem report_flag_only_on_syntax_error input imports out e :
+  read_imports true input = ROk imports out e -> e <> ESyntax ->
+  read_imports false input = ROk imports out e.
+Proof.
+  rewrite !read_imports_unfold. set (s := scan (strip_bom input)).
+  destruct (finish_imports _ true s) as [[s1 o1] e1] eqn:E1. intros H Hne.
+  assert (He : e1 = e). { destruct (fail s1); inversion H; reflexivity. }
+  subst e1. rewrite <- (finish_flag_irrelevant _ s (finish_true_err _ _ _ _ _ E1 Hne)), E1. exact H.
+Qed.
+
+(* with reportSyntaxError=false a syntax error is never returned: the error is nil or the NUL error *)
+Theorem no_report_no_syntax_error input imports out e :
+  read_imports false input = ROk imports out e -> e <> ESyntax.
+Proof.
+  rewrite read_imports_unfold. pose proof (finish_spec false (strip_bom input)) as H0. cbv zeta in H0.
+  set (s := scan (strip_bom input)) in *.
+  destruct (err s) eqn:Es.
+  - (* no error after the scan *)
+    unfold finish_imports. destruct (no_err s && negb (eof s)).
+    + destruct (rbuf s); intros H; match type of H with match ?f with _ => _ end = _ => destruct f end;
+        inversion H; discriminate.
+    + rewrite Es. intros H; match type of H with match ?f with _ => _ end = _ => destruct f end;
+        inversion H; congruence.
+  - destruct (finish_imports _ false s) as [[s0 o0] e0]. destruct H0 as [F0 [_ [_ [_ [_ C0]]]]].
+    rewrite F0. intros [= _ _ <-]. destruct (C0 eq_refl eq_refl) as [[-> _]| ->]; discriminate.
+  - unfold finish_imports. destruct (no_err s && negb (eof s)) eqn:Ec.
+    + apply andb_true_iff in Ec. destruct Ec as [Hn _]. unfold no_err in Hn. rewrite Es in Hn. discriminate.
+    + rewrite Es. intros H; match type of H with match ?f with _ => _ end = _ => destruct f end;
+        inversion H; congruence.
+Qed.
+
+(* both modes return the same imports: the flag never changes what was found *)
+Theorem report_flag_same_imports input i1 o1 e1 i0 o0 e0 :
+  read_imports true input = ROk i1 o1 e1 -> read_imports false input = ROk i0 o0 e0 -> i1 = i0.
+Proof.
+  rewrite !read_imports_unfold.
+  pose proof (finish_spec true (strip_bom input)) as H1. pose proof (finish_spec false (strip_bom input)) as H0.
+  cbv zeta in H1, H0. set (s := scan (strip_bom input)) in *.
+  destruct (finish_imports _ true s) as [[s1 a1] b1]. destruct (finish_imports _ false s) as [[s0 a0] b0].
+  destruct H1 as [F1 [I1 _]]. destruct H0 as [F0 [I0 _]]. rewrite F1, F0.
+  intros [= <- _ _] [= <- _ _]. congruence.
+Qed.
+
+(* non-vacuity: a file read without error; an import path broken by a newline (a syntax error
+   when requested, the whole input and no error otherwise); a NUL inside a path literal (the
+   NUL error in both modes) *)
+Example ex_flag_valid :
+  read_imports true [x70; x61; x63; x6b; x61; x67; x65; x20; x70; x0a; x69; x6d; x70; x6f; x72; x74; x20; x22; x61; x22; x0a; x78] = ROk [[x22; x61; x22]] [x70; x61; x63; x6b; x61; x67; x65; x20; x70; x0a; x69; x6d; x70; x6f; x72; x74; x20; x22; x61; x22; x0a] ENone
+  /\ read_imports false [x70; x61; x63; x6b; x61; x67; x65; x20; x70; x0a; x69; x6d; x70; x6f; x72; x74; x20; x22; x61; x22; x0a; x78] = ROk [[x22; x61; x22]] [x70; x61; x63; x6b; x61; x67; x65; x20; x70; x0a; x69; x6d; x70; x6f; x72; x74; x20; x22; x61; x22; x0a] ENone.
+Proof. vm_compute. split; reflexivity. Qed.
+
+Example ex_flag_newline_in_path :
+  read_imports true [x70; x61; x63; x6b; x61; x67; x65; x20; x70; x0a; x69; x6d; x70; x6f; x72; x74; x20; x22; x61; x0a; x62; x22; x0a; x76; x61; x72; x20; x78; x20; x3d; x20; x31; x0a] = ROk [] [x70; x61; x63; x6b; x61; x67; x65; x20; x70; x0a; x69; x6d; x70; x6f; x72; x74; x20; x22; x61; x0a] ESyntax
+  /\ read_imports false [x70; x61; x63; x6b; x61; x67; x65; x20; x70; x0a; x69; x6d; x70; x6f; x72; x74; x20; x22; x61; x0a; x62; x22; x0a; x76; x61; x72; x20; x78; x20; x3d; x20; x31; x0a] = ROk [] [x70; x61; x63; x6b; x61; x67; x65; x20; x70; x0a; x69; x6d; x70; x6f; x72; x74; x20; x22; x61; x0a; x62; x22; x0a; x76; x61; x72; x20; x78; x20; x3d; x20; x31; x0a] ENone.
+Proof. vm_compute. split; reflexivity. Qed.
+
+Example ex_flag_nul_in_path :
+  read_imports true [x70; x61; x63; x6b; x61; x67; x65; x20; x70; x0a; x69; x6d; x70; x6f; x72; x74; x20; x22; x61; x00; x22] = ROk [] [x70; x61; x63; x6b; x61; x67; x65; x20; x70; x0a; x69; x6d; x70; x6f; x72; x74; x20; x22; x61; x00] ENUL
+  /\ read_imports false [x70; x61; x63; x6b; x61; x67; x65; x20; x70; x0a; x69; x6d; x70; x6f; x72; x74; x20; x22; x61; x00; x22] = ROk [] [x70; x61; x63; x6b; x61; x67; x65; x20; x70; x0a; x69; x6d; x70; x6f; x72; x74; x20; x22; x61; x00] ENUL.
+Proof. vm_compute. split; reflexivity. Qed.
